@@ -28,7 +28,7 @@ THEOREMS = ['Vakt.C19.never_dropped', 'Vakt.C19.irreversible_untouched_reported'
             'Vakt.C19.m4up_adds_compiled', 'Vakt.C19.m4up_failure',
             'Vakt.C19.probes_ok']
 # obligations over what was translated from /repo/vakt/storage/mongo.py in this run: MongoMigration._each_doc - a document whose processor
-# raises is reported and not replaced, every other one is replaced under its uid by the processor's result (lean/Gen/EquivMongoMig.lean)
+# raises is collected as failed and not replaced, the error-level report is written exactly when some document failed, every other one is replaced under its uid by the processor's result (lean/Gen/EquivMongoMig.lean)
 EXTRA_BUILD = ['+Gen.EquivMongoMig']
 GEN_IMPORTS = ['Gen.EquivMongoMig']
 GEN_THEOREMS = ['Vakt.GenEquiv.gen_each_doc', 'Vakt.GenEquiv.each_failed_eq', 'Vakt.GenEquiv.translatedMongoMig_covers']
